@@ -466,13 +466,33 @@ def run_fn(case):
 
 
 # --------------------------------------------------------------------------- kill test
+_STRACE = []
+
+
+def strace_injection_works():
+    """can this sandbox deliver SIGKILL at a chosen system call (strace with ptrace permission)?"""
+    if not _STRACE:
+        ok = False
+        try:
+            p = subprocess.run(["strace", "-f", "-o", "/dev/null", "-e", "trace=write",
+                                "-e", "inject=write:signal=SIGKILL:when=1", PY, "-c", "import os; os.write(1, b'x')"],
+                               stdout=subprocess.PIPE, stderr=subprocess.DEVNULL, timeout=60)
+            ok = p.stdout == b"" and p.returncode != 0
+        except Exception:  # noqa
+            ok = False
+        _STRACE.append(ok)
+    return _STRACE[0]
+
+
 def run_crash(case):
     """a writer PROCESS performs the steps, acknowledging each completed one on a pipe; it is
     SIGKILLed after `after` acknowledgements (mode 'acked') or a short random time later (mode
     'mid', aimed at the middle of the next operation); a FRESH process then reads the file"""
+    kill = case["kill"]
+    if kill["mode"] == "syscall" and not strace_injection_works():
+        return {"skipped": "strace cannot inject signals in this sandbox; the timed kills remain"}
     d = tempfile.mkdtemp(prefix="c15_")
     db_file = os.path.join(d, "state.db")
-    kill = case["kill"]
     p = None
     try:
         cmd = [PY, os.path.abspath(__file__), "child"]
